@@ -13,6 +13,15 @@ import os
 from .. import common, tlc
 
 
+def _close(real):
+    c = getattr(real, 'close', None)
+    if c is not None:
+        try:
+            c()
+        except BaseException:
+            pass
+
+
 def replay(v, module, cfg, make_real, apply, compare, state_of, prop, label, describe=str, max_edges=None, max_failures=40):
     work = common.workdir()
     dump = os.path.join(work, '%s_graph_%s' % (label, cfg.replace('.cfg', '')))
@@ -78,6 +87,7 @@ def replay(v, module, cfg, make_real, apply, compare, state_of, prop, label, des
                 stack_states.pop()
             if cur is None:
                 break
+            _close(real)
             try:
                 real = build(cur)
             except common.Machinery:
@@ -107,6 +117,7 @@ def replay(v, module, cfg, make_real, apply, compare, state_of, prop, label, des
         cur = b
         if max_edges and replayed >= max_edges:
             break
+    _close(real)
     v.add('%s_transitions_replayed' % label, replayed)
     v.add('%s_transitions_total' % label, total)
     v.add('%s_states' % label, len(nodes))
